@@ -205,6 +205,15 @@ func c05Catalogue(gwNS string, plus bool) []c05Exotic {
 		{"crd-old-version", &metav1.PartialObjectMetadata{TypeMeta: metav1.TypeMeta{Kind: "CustomResourceDefinition", APIVersion: "apiextensions.k8s.io/v1"},
 			ObjectMeta: metav1.ObjectMeta{Name: "tlsroutes.gateway.networking.k8s.io", Annotations: map[string]string{"gateway.networking.k8s.io/bundle-version": "v0.9.0"}}}},
 	}
+	// the control-plane configuration of this controller with its optional parts left out (the schema defaults logging.level only
+	// when spec.logging is there); only the resource of the configured name is watched (WithNamespacedNameFilter)
+	debug := ngfAPIv1alpha1.ControllerLogLevelDebug
+	cat = append(cat,
+		c05Exotic{"nginxgateway-empty-spec", &ngfAPIv1alpha1.NginxGateway{ObjectMeta: metav1.ObjectMeta{Namespace: vpPodNS, Name: "nginx-gateway-config", Generation: 1}}},
+		c05Exotic{"nginxgateway-logging-without-level", &ngfAPIv1alpha1.NginxGateway{ObjectMeta: metav1.ObjectMeta{Namespace: vpPodNS, Name: "nginx-gateway-config", Generation: 2},
+			Spec: ngfAPIv1alpha1.NginxGatewaySpec{Logging: &ngfAPIv1alpha1.Logging{}}}},
+		c05Exotic{"nginxgateway-debug", &ngfAPIv1alpha1.NginxGateway{ObjectMeta: metav1.ObjectMeta{Namespace: vpPodNS, Name: "nginx-gateway-config", Generation: 3},
+			Spec: ngfAPIv1alpha1.NginxGatewaySpec{Logging: &ngfAPIv1alpha1.Logging{Level: &debug}}}})
 	if plus {
 		cat = append(cat, c05Exotic{"usage-secret-without-key", &apiv1.Secret{ObjectMeta: metav1.ObjectMeta{Namespace: vpPodNS, Name: "nplus-license"},
 			Data: map[string][]byte{"other": []byte("x")}}})
